@@ -18,7 +18,7 @@ ABSENT = ("absent",)
 ANY = ("any",)
 
 # value tokens used in inputs: expression -> (parsed int | None when invalid)
-VALS = {"1": 1, "2": 2, "'3'": 3, "3": 3, "'x'": None, "'1'": 1, "0": 0}
+VALS = {"1": 1, "2": 2, "'3'": 3, "3": 3, "'x'": None, "'1'": 1, "0": 0, "False": 0}
 
 
 class FD:
@@ -133,6 +133,8 @@ OPTION_SETS = [
     ("ignore_required=True, no_default=True", dict(ignore_required=True, no_default=True)),
     ("addition=True, max_params=2, min_params=1", dict(addition=True, max_params=2, min_params=1)),
     ("invalid_values='exclude'", dict(invalid_values="exclude")),
+    ("data_first_search=True, addition=True", dict(data_first_search=True, addition=True)),
+    ("data_first_search=True, addition=int", dict(data_first_search=True, addition=int)),
 ]
 # option sets that are also meaningful as *runtime* options of __from__ (alias / case maps are fixed at class creation;
 # the runtime addition *type* is documented to be ignored, so only None/True/False are used at run time)
@@ -171,20 +173,22 @@ def field_fragments(f: BoundField, ci: bool, tier, both_orders=False):
     return out
 
 
-EXTRA_FRAGS = [(), (("zz", "1"),), (("zz", "'x'"),)]
+# unknown keys; the falsy values (kept / converted like any other) are used with single-field classes and in the thorough tier
+EXTRA_FRAGS = [(), (("zz", "1"),), (("zz", "'x'"),), (("zz", "0"),), (("zz", "False"),)]
 
 
 def inputs_for(fields, ci_opt, tier):
     per = []
     for f in fields:
-        frs = field_fragments(f, ci_opt, tier, both_orders=(tier == "thorough" and len(fields) == 1))
+        frs = field_fragments(f, ci_opt, tier, both_orders=(len(fields) == 1))
         if len(fields) > 1:
             # reduce: at most one pair fragment family per field in multi-field classes (quick)
             if tier != "thorough":
                 frs = [fr for fr in frs if len(fr) < 2 or fr[0][0] == f.name]
         per.append(frs)
+    extras = EXTRA_FRAGS if (tier == "thorough" or len(fields) == 1) else EXTRA_FRAGS[:3]
     for combo in itertools.product(*per):
-        for ex in EXTRA_FRAGS:
+        for ex in extras:
             items = [kv for fr in combo for kv in fr] + list(ex)
             yield items
 
